@@ -130,6 +130,11 @@ func c04Sparse(t *rapid.T) []kit.Argv {
 		fields = append(fields, f)
 		a = append(a, f, "v"+f)
 	}
+	if rapid.IntRange(0, 2).Draw(t, "tail") == 0 {
+		x, y := tailPair(t)
+		fields = append(fields, x, y)
+		a = append(a, x, "v"+x, y, "v"+y)
+	}
 	out := []kit.Argv{kit.A("DEL", k), kit.A(a...)}
 	for phase := rapid.IntRange(1, 4).Draw(t, "phases"); phase > 0; phase-- {
 		for i := churnCount(t); i > 0; i-- {
